@@ -5,7 +5,7 @@ Log == ndJsonDeserialize(IOEnv.TRACE_FILE)
 VARIABLES l
 Ev == Log[l]
 TraceInit == TLCSet(1, 1) /\ l = 1
-Call == LET ok == GuessOK(Ev.ranks, Ev.n, Ev.returned) IN ok \/ PrintT(<<"BAD", l>>)
+Call == IF GuessOK(Ev.ranks, Ev.n, Ev.returned) THEN TRUE ELSE PrintT(<<"BAD", l>>)
 TraceNext == l <= Len(Log) /\ l' = l + 1 /\ Call
 TraceSpec == TraceInit /\ [][TraceNext]_l
 Progress == TLCSet(1, IF l > TLCGet(1) THEN l ELSE TLCGet(1))
